@@ -17,8 +17,9 @@ MANIFEST = dict(
          "commutative group) of the log-density bookkeeping of NFlow.log_prob / forward_and_log_prob / sample_and_log_prob, "
          "FlowModel.sample_and_log_prob (own noise, supplied z, alternative latent distribution), FlowProposal.forward_pass / "
          "backward_pass (with/without rescaling) and ImportanceFlowProposal draw / compute_meta_proposal_samples / update_log_q: "
-         "for every lawful transform (inverse pair with opposite log-Jacobians) the density attached to a generated point equals "
-         "the density computed forwards at that point, with an alternative latent distribution the base term is that "
+         "whenever the flow round-trips at the generating latent point and the reparameterisation round-trips at the generated "
+         "x'-point (pointwise hypotheses; implied by lawfulness = inverse pair with opposite log-Jacobians, proved for the layers "
+         "below and for affine rescalings) the density attached to a generated point equals the density computed forwards at that point, with an alternative latent distribution the base term is that "
          "distribution's density, and CompositeTransform stacks of any length of lawful layers are lawful. Proved lawful, for "
          "arbitrary conditioner functions and every dimension: affine coupling layers, masked affine autoregressive (MAF/MADE) "
          "layers with the literal sweep-loop inverse, lower/upper triangular affine maps and the LU linear layer (forward = "
@@ -33,7 +34,9 @@ MANIFEST = dict(
          "real MAFs (forward, log|det|, inverse loop, strict-prefix dependence of the conditioner). The oracle checks on the real "
          "outputs: inverse(forward(x)) = x, log_prob(sample) = reported log-density, array-level interface = torch model, "
          "backward_pass/draw density = forward_pass/compute_meta_proposal_samples density, 2-d grid integral of the density = 1.",
-    note="NOT proved: that the density integrates to one (checked by a 2-d grid integral only), that sum log|s| is the "
+    note="Inversion, angle/polar and logit reparameterisations (not globally invertible) enter only through the pointwise "
+         "round-trip hypothesis at the generated point, which the harness checks numerically on every generated point. "
+         "NOT proved: that the density integrates to one (checked by a 2-d grid integral only), that sum log|s| is the "
          "log-determinant of the derivative, lawfulness of glasflow's rational-quadratic spline and SVD (Householder) layers, "
          "batch norm in training mode, and all floating-point numerics (for those the lawful-transform hypothesis is checked "
          "numerically on the generated points). Oracle tolerances scale with the floating-point type and the measured local "
